@@ -3,6 +3,8 @@ uint64_t IN_n, IN_ne, IN_gk, IN_gk2;
 double IN_sp[4], IN_wo[8], IN_a, IN_b, IN_c, IN_d;
 bool IN_sw, IN_xr;
 static FlexPath c10_fp;
+static FlexPathElement c10_els[2];   /* static, typed objects: cheap to dereference for CBMC */
+static Vec2 c10_spine[2], c10_w0[2], c10_w1[2];
 void h_fpath_transform(void) {
     VF_IN(u64, IN_n); VF_IN(u64, IN_ne); VF_IN(u64, IN_gk); VF_IN(u64, IN_gk2); VF_IN(bool, IN_sw);
     VF_IN_ARR(IN_sp); VF_IN_ARR(IN_wo);
@@ -14,17 +16,15 @@ void h_fpath_transform(void) {
     memset(&c10_fp, 0, sizeof c10_fp);
     c10_fp.scale_width = IN_sw;
     c10_fp.spine.point_array.count = IN_n; c10_fp.spine.point_array.capacity = 2;
-    c10_fp.spine.point_array.items = (Vec2 *)malloc(sizeof(Vec2) * 2);
+    c10_fp.spine.point_array.items = c10_spine;
     c10_fp.num_elements = IN_ne;
-    c10_fp.elements = (FlexPathElement *)malloc(sizeof(FlexPathElement) * 2);
-    VF_ASSUME(c10_fp.spine.point_array.items != NULL && c10_fp.elements != NULL);
+    c10_fp.elements = c10_els;
 #ifndef VF_CBMC
     memset(c10_fp.elements, 0, sizeof(FlexPathElement) * 2);   /* CBMC: the other element fields stay arbitrary */
 #endif
     c10_fp.spine.point_array.items[0].x = IN_sp[0]; c10_fp.spine.point_array.items[0].y = IN_sp[1];
     c10_fp.spine.point_array.items[1].x = IN_sp[2]; c10_fp.spine.point_array.items[1].y = IN_sp[3];
-    Vec2 *w0 = (Vec2 *)malloc(sizeof(Vec2) * 2), *w1 = (Vec2 *)malloc(sizeof(Vec2) * 2);
-    VF_ASSUME(w0 != NULL && w1 != NULL);
+    Vec2 *w0 = c10_w0, *w1 = c10_w1;
     w0[0].x = IN_wo[0]; w0[0].y = IN_wo[1]; w0[1].x = IN_wo[2]; w0[1].y = IN_wo[3];
     w1[0].x = IN_wo[4]; w1[0].y = IN_wo[5]; w1[1].x = IN_wo[6]; w1[1].y = IN_wo[7];
     c10_fp.elements[0].half_width_and_offset.items = w0; c10_fp.elements[0].half_width_and_offset.count = IN_n; c10_fp.elements[0].half_width_and_offset.capacity = 2;
